@@ -378,9 +378,27 @@ class Gen:
             L.append(line)
             flat.apply(line.split("|"))
         nr = rnd.randint(*P.get("nregs", (1, 4)))
+        # layered registry DAG with a diamond below a re-basable apex (tops, apex(top), 2-3 sides(apex[, top]), bottom(sides),
+        # sometimes a registry below the bottom): a descendant reached through two paths must be refreshed after BOTH
+        layered = None
+        if rnd.random() < P.get("layered", 0):
+            ntop = rnd.randint(1, 2)
+            nside = rnd.randint(2, 3)
+            layered = [[] for _ in range(ntop)]
+            apex = ntop
+            layered.append([rnd.randrange(ntop)])
+            sides = list(range(apex + 1, apex + 1 + nside))
+            for _ in sides:
+                layered.append([apex] + ([rnd.randrange(ntop)] if rnd.random() < 0.25 else []))
+            layered.append(sides[:] if rnd.random() < 0.7 else rnd.sample(sides, 2))
+            if rnd.random() < 0.5:
+                layered.append([len(layered) - 1])
+            nr = len(layered)
         for r in range(nr):
             for _ in range(10):
                 bs = rnd.sample(range(r), min(r, rnd.choice(P.get("regbases", [0, 1, 1, 2]))))
+                if layered is not None:
+                    bs = layered[r]
                 rb = dict(flat.regbases)
                 rb[r] = bs
                 if c03.lin(rb, r) is not None:
@@ -647,6 +665,10 @@ class Gen:
             L.append(line)
             flat.apply(line.split("|"))
             emit_queries(*hot)
+            if k == "rbases" and "ro" in P["queries"]:
+                # every registry below the re-based one consults the new chain (each is reached by the cascade, some twice)
+                for j in sorted(rdown(r)):
+                    L.append("ro|%d" % j)
             if "book" in P["queries"]:
                 rq = req
                 L.append("registered|%d|%s|%d|%s" % (r, sreq(rq), p, name))
